@@ -1,9 +1,11 @@
 import GLua.Engines.TableEng
 import GLua.Engines.SemEng
+import GLua.Engines.TableLibEng
 open GLua GLua.Eng
 
 structure DState where
   tbl : TableEng.St := []
+  c18 : TableLibEng.St := {}
 
 def stepLine (s : DState) (line : String) : DState × String :=
   match words line with
@@ -11,6 +13,7 @@ def stepLine (s : DState) (line : String) : DState × String :=
   | "reset" :: _ => ({}, "ok")
   | "T" :: r => let (t, v) := TableEng.handle s.tbl r; ({ s with tbl := t }, v.show)
   | "S" :: r => (s, SemEng.handle r)
+  | "C18" :: r => let (t, v) := TableLibEng.handle s.c18 r; ({ s with c18 := t }, v.show)
   | _ => (s, "MODEL bad-engine")
 
 partial def loop (h : IO.FS.Stream) (out : IO.FS.Stream) (s : DState) : IO Unit := do
